@@ -165,6 +165,9 @@ class SyncObj(object):
             self.__raftLog.add(_bchr(_COMMAND_TYPE.NO_OP), 1, self.__raftCurrentTerm)
         self.__raftCommitIndex = self.__raftLog.getRaftCommitIndex()
         self.__raftLastApplied = 1
+        # Membership entries up to this index were read from the journal and take effect when applied;
+        # entries received later take effect when they are appended.
+        self.__journalReplayIdx = self.__getCurrentLogIndex()
         self.__raftNextIndex = {}
         self.__lastResponseTime = {}
         self.__raftMatchIndex = {}
@@ -834,7 +837,8 @@ class SyncObj(object):
         # for normal case it is already done earlier and calls will be ignored
         clusterChangeRequest = self.__parseChangeClusterRequest(command)
         if clusterChangeRequest is not None:
-             self.__doChangeCluster(clusterChangeRequest)
+             if self.__raftLastApplied < self.__journalReplayIdx:
+                 self.__doChangeCluster(clusterChangeRequest)
              return
 
         if commandType != _COMMAND_TYPE.REGULAR:
@@ -951,6 +955,7 @@ class SyncObj(object):
                                 self.__doChangeCluster(clusterChangeRequest, reverse=True)
 
                     self.__deleteEntriesFrom(prevLogIdx + 1 + matched)
+                    self.__journalReplayIdx = min(self.__journalReplayIdx, prevLogIdx + matched)
                 entriesToAdd = newEntries[matched:]
                 for entry in entriesToAdd:
                     self.__raftLog.add(*entry)
@@ -1442,6 +1447,7 @@ class SyncObj(object):
                 self.__raftLog.clear()
                 self.__raftLog.add(*data[2])
                 self.__raftLog.add(*data[1])
+                self.__journalReplayIdx = min(self.__journalReplayIdx, data[1][1])
 
             self.__raftLastApplied = data[1][1]
 
